@@ -3,7 +3,7 @@ import itertools
 import re
 
 from ..core import Case, hx
-from ..gen import Opt, schema_lines, dq_render
+from ..gen import Opt, schema_lines, dq_render, LIST
 
 THEOREMS = ["C04_int", "C04_int_range", "C04_bool", "C04_float_accept", "convInt_prefixed", "convInt_decimal"]
 VARIANT = "asan"
@@ -11,7 +11,8 @@ RULE = ("tokens over the numeral alphabet {0 1 7 8 9 a f g x b X B + - . e p spa
         "bound plus boundary numerals around LONG_MIN/LONG_MAX/2^63/DBL_MAX/DBL_MIN/denormals, each converted through "
         "cfg_setmulti, cfg_setopt and cfg_parse_buf under prior errno 0/ERANGE/EINVAL for int, float and bool options; "
         "non-trivial = at least one digit and one of: radix prefix, sign, point/exponent, range edge, trailing byte")
-SCHEMA = [Opt("i", "int", 0, 1), Opt("f", "float", 0, 0.5), Opt("b", "bool", 0, False)]
+SCHEMA = [Opt("i", "int", 0, 1), Opt("f", "float", 0, 0.5), Opt("b", "bool", 0, False),
+          Opt("il", "int", LIST, [b"3"]), Opt("fl", "float", LIST, None), Opt("bl", "bool", LIST, None)]
 ALPHA = [bytes([c]) for c in b"01789afgxbXB+-.ep \t"]
 BOUND = [b"9223372036854775807", b"9223372036854775808", b"-9223372036854775808", b"-9223372036854775809",
          b"0x7fffffffffffffff", b"0x8000000000000000", b"0xffffffffffffffff", b"0x10000000000000000",
@@ -23,6 +24,7 @@ BOUND = [b"9223372036854775807", b"9223372036854775808", b"-9223372036854775808"
          b"0.1", b"1e23", b"8.5e-1", b"123456789012345678901234567890", b"0.000001", b"1e", b"1e+", b"1.e1", b".e1", b"0x", b"0b", b"0x.p1",
          b"0x1p", b"inf", b"nan", b"-inf", b"infinity", b"NAN", b"nan(1)", b"true", b"TRUE", b"yes", b"On", b"off", b"NO", b"fAlSe", b"t", b"1", b"0", b"",
          b"truee", b" true", b"0b102", b"0x1g", b"08", b"018", b"00", b"0-5", b"0x-5", b"0x0x5", b"0X1F", b"0B11", b"1_000", b"1,5", b"-010", b"+010", b"-0x10", b"+0x1f", b"-0b11", b"-00", b"+0", b"-08", b"+09x", "\uff11".encode("utf8")]
+BOUNDSET = set(BOUND)
 SIGNPREFIX = re.compile(rb"^[+-]0[0-9A-Za-z]")
 
 
@@ -39,6 +41,17 @@ def mk_case(cid, tok, errno):
         lines += ["ERRNO %d" % errno, "PB 0 " + hx(b"i = " + dq_render(tok) + b"\n"),
                   "ERRNO %d" % errno, "PB 0 " + hx(b"f = " + dq_render(tok) + b"\n"),
                   "PB 0 " + hx(b"b = " + dq_render(tok) + b"\n"), "D 0"]
+        # the same token as an element of a list: without braces, appended, and in braces after a good element
+        if not (len(tok) <= 2 or tok in BOUNDSET or (len(tok) + sum(tok)) % 4 == 0):
+            return Case(cid, lines, {"tok": tok, "errno": errno, "signprefix": bool(SIGNPREFIX.match(tok))})
+        forms = [b"%s = %s\n", b"%s += %s\n", b"%s = {%s}\n", b"%s += {%s, %s}\n"]
+        k = len(tok) + errno
+        for j, name in enumerate((b"il", b"fl", b"bl")):
+            fm = forms[(k + j) % 4]
+            q = dq_render(tok)
+            text = fm % ((name, q, q) if fm.count(b"%s") == 3 else (name, q))
+            lines += ["ERRNO %d" % errno, "PB 0 " + hx(text)]
+        lines += ["D 0"]
     return Case(cid, lines, {"tok": tok, "errno": errno, "signprefix": bool(SIGNPREFIX.match(tok))})
 
 
